@@ -278,3 +278,231 @@ Definition case_ok (pl : pool) (init : list tq) (ops : list op) (observed : list
 Definition gcase_ok (init : list tt) (ops : list gop) (observed : list gout) : bool :=
   let g0 := fold_left (fun g t => fst (gr_insert N N.eqb g t)) init [] in
   list_eqb gout_eqb (grun g0 ops) observed.
+
+(* ================= widened alphabet: view paths (views of views), every provided method of
+   Graph / Dataset / MutableGraph / MutableDataset called through a view, bulk mutations, and
+   stores that are bags (Vec) rather than sets.  The state is still a list of quads; a graph store
+   wrapped by GraphAsDataset is the special case where every quad is in the default graph. ======= *)
+
+(* one step from a dataset to a graph: Dataset::union_graph / partial_union_graph / graph *)
+Inductive hop := HUnion | HPUnion (gm : gdesc) | HGraph (g : option N).
+
+Definition hop_triples (d : dataset N) (h : hop) : list tt :=
+  match h with
+  | HUnion => union_triples N d
+  | HPUnion m => punion_triples N d (gdesc_g m)
+  | HGraph g => dg_triples N N.eqb d g
+  end.
+(* the view's own triples_matching *)
+Definition hop_matching (d : dataset N) (h : hop) (sm pm om : tmatch N) : list tt :=
+  match h with
+  | HUnion => union_matching N d sm pm om
+  | HPUnion m => punion_matching N d (gdesc_g m) sm pm om
+  | HGraph g => dg_matching N N.eqb d g sm pm om
+  end.
+(* d.hop1().as_dataset().hop2().as_dataset()... : the quads seen after each (hop; as_dataset) pair *)
+Fixpoint path_quads (d : dataset N) (p : list hop) : dataset N :=
+  match p with
+  | [] => d
+  | h :: p' => path_quads (gad_quads N (hop_triples d h)) p'
+  end.
+
+Definition is_nil {A} (l : list A) : bool := match l with [] => true | _ => false end.
+Definition t_at (pos : N) (t : tt) : N :=
+  if N.eqb pos 0 then ts t else if N.eqb pos 1 then tp t else to_ t.
+Definition q_at (pos : N) (q : tq) : list N :=
+  if N.eqb pos 3 then match qg q with Some g => [g] | None => [] end else [t_at pos (qt q)].
+Definition q_terms (q : tq) : list N :=
+  [ts (qt q); tp (qt q); to_ (qt q)] ++ match qg q with Some g => [g] | None => [] end.   (* iter_spog *)
+Definition q_atoms_of_kind (p : pool) (kind : N) (d : list tq) : list N :=
+  filter (fun a => N.eqb (fst (pool_get p a)) kind)
+         (flat_map (fun q => flat_map (fun x => snd (pool_get p x)) (q_terms q)) d).
+Definition q_triple_terms (p : pool) (d : list tq) : list N :=
+  flat_map (fun q => flat_map (pool_tc p) (q_terms q)) d.
+
+(* observations on a graph-valued view (Graph's methods) and on a dataset-valued one (Dataset's) *)
+Inductive gobs :=
+| GOMatching (sm pm om : mdesc) | GOAll | GOContains (t : tt)
+| GOTerms (pos : N)             (* 0 subjects, 1 predicates, 2 objects *)
+| GOAtoms (kind : N).           (* blank_nodes, iris, literals, quoted_triples, variables *)
+Inductive dobs :=
+| DOMatching (sm pm om : mdesc) (gm : gdesc) | DOAll | DOContains (q : tq)
+| DOTerms (pos : N)             (* ... 3 graph_names *)
+| DOAtoms (kind : N).
+
+Definition gobs_eval (pl : pool) (d : dataset N) (h : hop) (o : gobs) : out :=
+  match o with
+  | GOMatching sm pm om => OTriples (hop_matching d h (mdesc_t sm) (mdesc_t pm) (mdesc_t om))
+  | GOAll => OTriples (hop_triples d h)
+  | GOContains t =>     (* Graph::contains = triples_matching([s],[p],[o]).next().is_some() *)
+      OFlag (negb (is_nil (hop_matching d h (mdesc_t (MOneOf [ts t])) (mdesc_t (MOneOf [tp t])) (mdesc_t (MOneOf [to_ t])))))
+  | GOTerms pos => OTerms (map (t_at pos) (hop_triples d h))
+  | GOAtoms k => OTerms (if N.eqb k 3 then triple_terms pl (hop_triples d h) else atoms_of_kind pl k (hop_triples d h))
+  end.
+Definition dobs_eval (pl : pool) (d : dataset N) (o : dobs) : out :=
+  match o with
+  | DOMatching sm pm om gm => OQuads (ds_quads_matching N d (mdesc_t sm) (mdesc_t pm) (mdesc_t om) (gdesc_g gm))
+  | DOAll => OQuads d
+  | DOContains q =>     (* Dataset::contains = quads_matching([s],[p],[o],[g]).next().is_some() *)
+      OFlag (negb (is_nil (ds_quads_matching N d (mdesc_t (MOneOf [ts (qt q)])) (mdesc_t (MOneOf [tp (qt q)]))
+                                               (mdesc_t (MOneOf [to_ (qt q)])) (one_g N N.eqb (qg q)))))
+  | DOTerms pos => OTerms (flat_map (q_at pos) d)
+  | DOAtoms k => OTerms (if N.eqb k 3 then q_triple_terms pl d else q_atoms_of_kind pl k d)
+  end.
+
+(* the store: set-like (HashSet, BTreeSet, the in-memory stores), or a bag: Vec<Spog>/Vec<[T;3]> (insert pushes and
+   answers true, remove deletes every copy and answers true) or Vec<Gspo> (insert pushes and answers true, remove
+   deletes ONE copy and answers whether there was one) *)
+Inductive skind := SSet | SBagAll | SBagOne.
+Fixpoint remove_first (q : tq) (d : dataset N) : dataset N * bool :=
+  match d with
+  | [] => ([], false)
+  | x :: r => if quad_eqb N N.eqb q x then (r, true) else let '(r', b) := remove_first q r in (x :: r', b)
+  end.
+Fixpoint remove_first_t (t : tt) (l : list tt) : list tt * bool :=     (* the same on a list of triples *)
+  match l with
+  | [] => ([], false)
+  | x :: r => if triple_eqb N N.eqb t x then (r, true) else let '(r', b) := remove_first_t t r in (x :: r', b)
+  end.
+Definition s_insert (sk : skind) (d : dataset N) (q : tq) : dataset N * bool :=
+  match sk with SSet => ds_insert N N.eqb d q | _ => (d ++ [q], true) end.
+Definition s_remove (sk : skind) (d : dataset N) (q : tq) : dataset N * bool :=
+  match sk with
+  | SSet => ds_remove N N.eqb d q
+  | SBagAll => (filter (fun x => negb (quad_eqb N N.eqb q x)) d, true)
+  | SBagOne => remove_first q d
+  end.
+
+(* a mutation issued through d.graph_mut(g1).as_dataset_mut().graph_mut(g2)... names the graphs
+   g1, g2, ...: it lands in g1 of the store when every later name is the default graph, and nowhere
+   otherwise (GraphAsDataset has a default graph only) *)
+Definition is_default (g : option N) : bool := match g with None => true | Some _ => false end.
+Definition lands (gs : list (option N)) : option (option N) :=
+  match gs with
+  | [] => None
+  | g :: rest => if forallb is_default rest then Some g else None
+  end.
+Inductive xout := XO (o : out) | XOnlyDefault.
+Definition x_insert (sk : skind) (d : dataset N) (gs : list (option N)) (t : tt) : dataset N * xout :=
+  match lands gs with
+  | Some g => let '(d', b) := s_insert sk d (mkQ t g) in (d', XO (OFlag b))
+  | None => (d, XOnlyDefault)                  (* GraphAsDatasetMutationError::OnlyDefaultGraph *)
+  end.
+Definition x_remove (sk : skind) (d : dataset N) (gs : list (option N)) (t : tt) : dataset N * xout :=
+  match lands gs with
+  | Some g => let '(d', b) := s_remove sk d (mkQ t g) in (d', XO (OFlag b))
+  | None => (d, XO (OFlag false))
+  end.
+(* insert_all / remove_all (provided methods): one by one, counting the true flags, stopping at the
+   first error *)
+Fixpoint x_insert_all (sk : skind) (d : dataset N) (items : list (list (option N) * tt)) (n : N)
+  : dataset N * xout :=
+  match items with
+  | [] => (d, XO (OCount n))
+  | (gs, t) :: rest =>
+      match x_insert sk d gs t with
+      | (d', XO (OFlag b)) => x_insert_all sk d' rest (if b then n + 1 else n)
+      | (d', _) => (d', XOnlyDefault)
+      end
+  end.
+Fixpoint x_remove_all (sk : skind) (d : dataset N) (items : list (list (option N) * tt)) (n : N)
+  : dataset N * xout :=
+  match items with
+  | [] => (d, XO (OCount n))
+  | (gs, t) :: rest =>
+      match x_remove sk d gs t with
+      | (d', XO (OFlag b)) => x_remove_all sk d' rest (if b then n + 1 else n)
+      | (d', _) => (d', XOnlyDefault)
+      end
+  end.
+(* remove_matching / retain_matching of MutableGraph through graph_mut(g), of MutableDataset on the store *)
+Definition x_remove_quads (sk : skind) (d : dataset N) (qs : list tq) : dataset N * nat :=
+  fold_left (fun acc q => let '(d', b) := s_remove sk (fst acc) q in (d', if b then S (snd acc) else snd acc))
+            qs (d, O).
+Definition x_remove_list (sk : skind) (d : dataset N) (g : option N) (l : list tt) : dataset N * nat :=
+  fold_left (fun acc t => let '(d', b) := s_remove sk (fst acc) (mkQ t g) in (d', if b then S (snd acc) else snd acc))
+            l (d, O).
+Definition x_remove_matching (sk : skind) (d : dataset N) (g : option N) sm pm om : dataset N * nat :=
+  x_remove_list sk d g (dg_matching N N.eqb d g sm pm om).
+Definition x_retain_matching (sk : skind) (d : dataset N) (g : option N) sm pm om : dataset N :=
+  fst (x_remove_list sk d g (filter (fun t => negb (triple_matches N sm pm om t)) (dg_triples N N.eqb d g))).
+Definition xd_remove_matching (sk : skind) (d : dataset N) sm pm om gm : dataset N * nat :=
+  x_remove_quads sk d (ds_quads_matching N d sm pm om gm).
+Definition xd_retain_matching (sk : skind) (d : dataset N) sm pm om gm : dataset N :=
+  fst (x_remove_quads sk d (filter (fun q => negb (triple_matches N sm pm om (qt q) && gm (qg q))) d)).
+
+Inductive xop :=
+| XGObs (p : list hop) (h : hop) (o : gobs)     (* d.p...as_dataset().h() observed with a Graph method *)
+| XDObs (p : list hop) (o : dobs)               (* d.p...as_dataset() observed with a Dataset method *)
+| XIns (gs : list (option N)) (t : tt)          (* insert through graph_mut(g1).as_dataset_mut().graph_mut(g2)... *)
+| XRem (gs : list (option N)) (t : tt)
+| XInsAll (items : list (list (option N) * tt)) (* insert_all through a view: each item with its graph names *)
+| XRemAll (items : list (list (option N) * tt))
+| XRemMatching (g : option N) (sm pm om : mdesc)
+| XRetMatching (g : option N) (sm pm om : mdesc)
+| XDRemMatching (sm pm om : mdesc) (gm : gdesc) (* MutableDataset::remove_matching on the store *)
+| XDRetMatching (sm pm om : mdesc) (gm : gdesc).
+
+Definition xstep (sk : skind) (pl : pool) (d : dataset N) (x : xop) : dataset N * xout :=
+  match x with
+  | XGObs p h o => (d, XO (gobs_eval pl (path_quads d p) h o))
+  | XDObs p o => (d, XO (dobs_eval pl (path_quads d p) o))
+  | XIns gs t => x_insert sk d gs t
+  | XRem gs t => x_remove sk d gs t
+  | XInsAll items => x_insert_all sk d items 0
+  | XRemAll items => x_remove_all sk d items 0
+  | XRemMatching g sm pm om =>
+      let '(d', n) := x_remove_matching sk d g (mdesc_t sm) (mdesc_t pm) (mdesc_t om) in (d', XO (OCount (N.of_nat n)))
+  | XRetMatching g sm pm om =>
+      (x_retain_matching sk d g (mdesc_t sm) (mdesc_t pm) (mdesc_t om), XO (OFlag true))
+  | XDRemMatching sm pm om gm =>
+      let '(d', n) := xd_remove_matching sk d (mdesc_t sm) (mdesc_t pm) (mdesc_t om) (gdesc_g gm) in
+      (d', XO (OCount (N.of_nat n)))
+  | XDRetMatching sm pm om gm =>
+      (xd_retain_matching sk d (mdesc_t sm) (mdesc_t pm) (mdesc_t om) (gdesc_g gm), XO (OFlag true))
+  end.
+
+(* the first alphabet expressed in the widened one (Proofs: translate_ok) *)
+Definition translate (o : op) : xop :=
+  match o with
+  | DInsert q => XIns [qg q] (qt q)
+  | DRemove q => XRem [qg q] (qt q)
+  | VInsert g t => XIns [g] t
+  | VRemove g t => XRem [g] t
+  | QUnion sm pm om => XGObs [] HUnion (GOMatching sm pm om)
+  | QPUnion gm sm pm om => XGObs [] (HPUnion gm) (GOMatching sm pm om)
+  | QGraph g sm pm om => XGObs [] (HGraph g) (GOMatching sm pm om)
+  | QGraphAll g => XGObs [] (HGraph g) GOAll
+  | QUnionAll => XGObs [] HUnion GOAll
+  | QPUnionAll gm => XGObs [] (HPUnion gm) GOAll
+  | VRemoveMatching g sm pm om => XRemMatching g sm pm om
+  | VRetainMatching g sm pm om => XRetMatching g sm pm om
+  | QUnionAtoms k => XGObs [] HUnion (GOAtoms k)
+  | QGraphAtoms g k => XGObs [] (HGraph g) (GOAtoms k)
+  | QDirect sm pm om gm => XDObs [] (DOMatching sm pm om gm)
+  end.
+
+(* mixed histories over both alphabets; on a bag store the first alphabet is read through translate *)
+Inductive hist_op := HOld (o : op) | HNew (x : xop).
+Definition hstep (sk : skind) (pl : pool) (d : dataset N) (h : hist_op) : dataset N * xout :=
+  match h with
+  | HOld o => match sk with
+              | SSet => let '(d', r) := step pl d o in (d', XO r)
+              | _ => xstep sk pl d (translate o)
+              end
+  | HNew x => xstep sk pl d x
+  end.
+Fixpoint hrun (sk : skind) (pl : pool) (d : dataset N) (ops : list hist_op) : list xout :=
+  match ops with
+  | [] => []
+  | o :: ops' => let '(d', r) := hstep sk pl d o in r :: hrun sk pl d' ops'
+  end.
+Definition xout_eqb (a b : xout) : bool :=
+  match a, b with
+  | XO x, XO y => out_eqb x y
+  | XOnlyDefault, XOnlyDefault => true
+  | _, _ => false
+  end.
+Definition xcase_ok (sk : skind) (pl : pool) (init : list tq) (ops : list hist_op) (observed : list xout) : bool :=
+  let d0 := fold_left (fun d q => fst (s_insert sk d q)) init [] in
+  list_eqb xout_eqb (hrun sk pl d0 ops) observed.
